@@ -137,7 +137,7 @@ Theorem trapezoid_panel_exact : forall (F f f' f'' : R -> R) (a b : R),
     F b - F a - (b - a) / 2 * (f a + f b) = - f'' d / 12 * (b - a) ^ 3.
 Proof.
   intros F f f' f'' a b Hab HF Hf Hf'.
-  set (K := (F b - F a - (b - a) / 2 * (f a + f b)) / (b - a) ^ 3).
+  remember ((F b - F a - (b - a) / 2 * (f a + f b)) / (b - a) ^ 3) as K eqn:HK.
   set (g   := fun t : R => F t - F a - (t - a) / 2 * (f a + f t) - K * (t - a) ^ 3).
   set (g'  := fun t : R => f t - / 2 * (f a + f t) - (t - a) / 2 * f' t
                             - 3 * K * (t - a) ^ 2).
@@ -163,9 +163,9 @@ Proof.
         by (apply is_derive_unique; exact H3).
       rewrite E2, E3. field. }
   assert (Hba : (b - a) ^ 3 <> 0) by (apply pow_nonzero; lra).
-  assert (Ea : g a = 0). { unfold g. Set Printing All. Show. Unset Printing All. ring. }
-  assert (Eb : g b = 0) by (unfold g, K; field; lra).
-  assert (Ea' : g' a = 0) by (unfold g'; generalize K; intros; field).
+  assert (Ea : g a = 0) by (unfold g; field).
+  assert (Eb : g b = 0) by (unfold g; rewrite HK; field; lra).
+  assert (Ea' : g' a = 0) by (unfold g'; field).
   destruct (rolle_lt g g' a b Hab Hg) as (c & Hc & Ec); [lra|].
   destruct (rolle_lt g' g'' a c) as (d & Hd & Ed); [lra | | lra |].
   { intros t Ht. apply Hg'. lra. }
@@ -173,7 +173,7 @@ Proof.
   unfold g'' in Ed.
   apply Rmult_integral in Ed. destruct Ed as [Ed | Ed]; [lra|].
   assert (EK : K * (b - a) ^ 3 = F b - F a - (b - a) / 2 * (f a + f b)).
-  { unfold K. field. lra. }
+  { rewrite HK. field. lra. }
   rewrite <- EK. replace K with (- f'' d / 12) by lra. reflexivity.
 Qed.
 
@@ -197,3 +197,79 @@ Proof.
 Qed.
 
 Print Assumptions trapezoid_panel.
+
+(* The RInt corollary: on [a,b], RInt f a b = F b - F a (f is differentiable,
+   hence continuous, on [a,b]). *)
+Lemma RInt_antiderivative : forall (F f f' : R -> R) (a b : R),
+  a <= b ->
+  (forall t, a <= t <= b -> is_derive F t (f t)) ->
+  (forall t, a <= t <= b -> is_derive f t (f' t)) ->
+  RInt f a b = F b - F a.
+Proof.
+  intros F f f' a b Hab HF Hf.
+  apply is_RInt_unique.
+  apply (is_RInt_derive F f a b).
+  - intros x Hx. rewrite Rmin_left, Rmax_right in Hx by lra. apply HF. exact Hx.
+  - intros x Hx. rewrite Rmin_left, Rmax_right in Hx by lra.
+    apply ex_derive_continuous. exists (f' x). apply Hf. exact Hx.
+Qed.
+
+Theorem trapezoid_panel_RInt : forall (F f f' f'' : R -> R) (a b M : R),
+  a < b ->
+  (forall t, a <= t <= b -> is_derive F t (f t)) ->
+  (forall t, a <= t <= b -> is_derive f t (f' t)) ->
+  (forall t, a <= t <= b -> is_derive f' t (f'' t)) ->
+  (forall t, a <= t <= b -> Rabs (f'' t) <= M) ->
+  Rabs (RInt f a b - (b - a) / 2 * (f a + f b)) <= M * (b - a) ^ 3 / 12.
+Proof.
+  intros F f f' f'' a b M Hab HF Hf Hf' Hup.
+  rewrite (RInt_antiderivative F f f' a b) by (assumption || lra).
+  apply (trapezoid_panel F f f' f'' a b M); assumption.
+Qed.
+
+Print Assumptions trapezoid_panel_RInt.
+
+(* If f is twice differentiable EVERYWHERE the antiderivative need not be
+   supplied: t |-> RInt f a t is one. *)
+Theorem trapezoid_panel_RInt_global : forall (f f' f'' : R -> R) (a b M : R),
+  a < b ->
+  (forall t, is_derive f t (f' t)) ->
+  (forall t, is_derive f' t (f'' t)) ->
+  (forall t, a <= t <= b -> Rabs (f'' t) <= M) ->
+  Rabs (RInt f a b - (b - a) / 2 * (f a + f b)) <= M * (b - a) ^ 3 / 12.
+Proof.
+  intros f f' f'' a b M Hab Hf Hf' Hup.
+  assert (Hc : forall t, continuous f t).
+  { intros t. apply ex_derive_continuous. exists (f' t). apply Hf. }
+  apply (trapezoid_panel_RInt (fun t => RInt f a t) f f' f'' a b M); auto.
+  intros t _.
+  apply (is_derive_RInt f (fun t => RInt f a t) a t).
+  - exists (mkposreal 1 Rlt_0_1). intros y _.
+    apply RInt_correct. apply ex_RInt_continuous. intros z _. apply Hc.
+  - apply Hc.
+Qed.
+
+Print Assumptions trapezoid_panel_RInt_global.
+
+(* The bound is attained: f = x^2 on [0,1], M = 2, error = -1/6. *)
+Example trapezoid_panel_sharp :
+  let F := fun x : R => x ^ 3 / 3 in
+  let f := fun x : R => x ^ 2 in
+  let f' := fun x : R => 2 * x in
+  let f'' := fun _ : R => 2 in
+  (forall t, is_derive F t (f t)) /\
+  (forall t, is_derive f t (f' t)) /\
+  (forall t, is_derive f' t (f'' t)) /\
+  (forall t, Rabs (f'' t) <= 2) /\
+  F 1 - F 0 - (1 - 0) / 2 * (f 0 + f 1) = - (1 / 6) /\
+  Rabs (F 1 - F 0 - (1 - 0) / 2 * (f 0 + f 1)) = 2 * (1 - 0) ^ 3 / 12.
+Proof.
+  cbv zeta. repeat split.
+  - intros t. auto_derive; [exact I | field].
+  - intros t. auto_derive; [exact I | ring].
+  - intros t. auto_derive; [exact I | ring].
+  - intros _. rewrite Rabs_pos_eq; lra.
+  - field.
+  - replace (1 ^ 3 / 3 - 0 ^ 3 / 3 - (1 - 0) / 2 * (0 ^ 2 + 1 ^ 2)) with (- (1 / 6)) by field.
+    rewrite Rabs_Ropp, Rabs_pos_eq by lra. field.
+Qed.
